@@ -212,9 +212,9 @@ Locals1 ==
                                                Km(NameBar, "query", << [n |-> "querier", t |-> "u32"], [n |-> "contract", t |-> "String"] >>),
                                                Km(<<"z">>, "sudo", << [n |-> "env", t |-> "u32"], [n |-> "deps", t |-> "String"] >>) >>],
                   [id |-> "own", methods |-> << Km(NameInstantiate, "instantiate", << [n |-> "code_id", t |-> "u32"], [n |-> "label", t |-> "String"], [n |-> "admin", t |-> "u32"],
-                                                                                     [n |-> "salt", t |-> "u32"], [n |-> "funds", t |-> "u32"] >>),
-                                                Km(<<"x">>, "exec", << [n |-> "funds", t |-> "u32"], [n |-> "contract", t |-> "String"], [n |-> "info", t |-> "u32"], [n |-> "sender", t |-> "u32"] >>),
-                                                Km(<<"y">>, "query", << [n |-> "deps", t |-> "u32"], [n |-> "msg", t |-> "String"], [n |-> "app", t |-> "u32"] >>),
+                                                                                     [n |-> "salt", t |-> "u32", mut |-> TRUE], [n |-> "funds", t |-> "u32"] >>),
+                                                Km(<<"x">>, "exec", << [n |-> "funds", t |-> "u32"], [n |-> "contract", t |-> "String"], [n |-> "info", t |-> "u32", mut |-> TRUE], [n |-> "sender", t |-> "u32"] >>),
+                                                Km(<<"y">>, "query", << [n |-> "deps", t |-> "u32"], [n |-> "msg", t |-> "String", mut |-> TRUE], [n |-> "app", t |-> "u32"] >>),
                                                 Km(<<"x","_","y">>, "sudo", << [n |-> "msg", t |-> "u32"], [n |-> "contract", t |-> "String"] >>),
                                                 Km(NameMigrate, "migrate", << [n |-> "msg", t |-> "u32"], [n |-> "code_id", t |-> "u32"], [n |-> "app", t |-> "String"] >>) >>] >>]
 
